@@ -1009,3 +1009,32 @@ def poseidon_hash(inputs):
 
 
 NAMES.update(poseidon_hash=poseidon_hash)
+
+
+def snark(fn):
+    def wrapped(*args, **kwargs):
+        if kwargs:
+            raise MustRaise("keyword arguments")
+
+        def conv(x):
+            if isinstance(x, (list, tuple)):
+                return type(x)(conv(y) for y in x)
+            if isinstance(x, dict):
+                return {k: conv(v) for k, v in x.items()}
+            if isinstance(x, int):
+                return PubVal(int(x))
+            if isinstance(x, float):
+                return PubValFxp(x)
+            return x
+
+        def back(x):
+            if isinstance(x, (list, tuple)):
+                return type(x)(back(y) for y in x)
+            if isinstance(x, dict):
+                return {k: back(v) for k, v in x.items()}
+            return x.val() if isinstance(x, (RInt, RBool, RFxp)) else x
+        return back(fn(*[conv(a) for a in args]))
+    return wrapped
+
+
+NAMES.update(snark=snark)
